@@ -97,15 +97,19 @@ impl Track {
 	}
 
 	pub fn should_be_removed(&self) -> bool {
-		if self
-			.sub_tracks
-			.iter()
-			.any(|(_, sub_track)| !sub_track.should_be_removed())
+		// child tracks that were added but not picked up yet keep this track alive too
+		if self.sub_tracks.has_pending()
+			|| self
+				.sub_tracks
+				.iter()
+				.any(|(_, sub_track)| !sub_track.should_be_removed())
 		{
 			return false;
 		}
 		if self.persist_until_sounds_finish {
-			self.shared().is_marked_for_removal() && self.sounds.is_empty()
+			self.shared().is_marked_for_removal()
+				&& self.sounds.is_empty()
+				&& !self.sounds.has_pending()
 		} else {
 			self.shared().is_marked_for_removal()
 		}
